@@ -288,6 +288,21 @@ fn retain_pred(k: u8, n: &mut usize, c: char) -> bool {
     }
 }
 
+/// The range `s..e` written with other bound kinds (same indices); the form varies with the indices so that every
+/// bound kind of the shared range resolver is exercised: excluded start, included end, both, unbounded.
+fn bounds(form: usize, s: usize, e: usize, len: usize) -> (std::ops::Bound<usize>, std::ops::Bound<usize>) {
+    use std::ops::Bound::*;
+    let lo_ex = |s: usize| if s >= 1 { Excluded(s - 1) } else { Included(s) };
+    let hi_in = |e: usize| if e >= 1 { Included(e - 1) } else { Excluded(e) };
+    match form % 5 {
+        1 => (lo_ex(s), Excluded(e)),
+        2 => (Included(s), hi_in(e)),
+        3 => (lo_ex(s), hi_in(e)),
+        4 => (if s == 0 { Unbounded } else { Included(s) }, if e == len { Unbounded } else { Excluded(e) }),
+        _ => (Included(s), Excluded(e)),
+    }
+}
+
 macro_rules! shrink_ops {
     ($s:expr, $op:expr) => {
         match $op {
@@ -306,9 +321,9 @@ macro_rules! shrink_ops {
                 $s.retain(|c| retain_pred(k, &mut n, c));
                 Some(String::new())
             }
-            Op::Drain(a, b, 0) => Some($s.drain(a..b).collect::<String>()),
+            Op::Drain(a, b, 0) => Some($s.drain(crate::bounds(a * 3 + b, a, b, $s.len())).collect::<String>()),
             Op::Drain(a, b, _) => {
-                let mut d = $s.drain(a..b);
+                let mut d = $s.drain(crate::bounds(a * 3 + b + 1, a, b, $s.len()));
                 let x = d.next();
                 drop(d);
                 Some(format!("{x:?}"))
@@ -343,11 +358,11 @@ macro_rules! grow_ops {
                 Some(String::new())
             }
             Op::Replace(a, b, k) => {
-                $s.replace_range(a..b, REPL[k]);
+                $s.replace_range(crate::bounds(a * 3 + b + 2, a, b, $s.len()), REPL[k]);
                 Some(String::new())
             }
             Op::ExtendWithin(a, b) => {
-                $s.extend_from_within(a..b);
+                $s.extend_from_within(crate::bounds(a * 3 + b + 3, a, b, $s.len()));
                 Some(String::new())
             }
             Op::Reserve(n) => {
